@@ -278,6 +278,75 @@ def domain_rule_antimonotone(case: dict, failure: dict) -> bool:
     return False
 
 
+def _body_lits(text: str) -> list:
+    out = []
+    for stm in _prg(text):
+        if stm.ast_type in (ASTType.Rule, ASTType.Minimize):
+            out.extend(stm.body)
+    return out
+
+
+def math_sumplus_negative_weight(case: dict, failure: dict) -> bool:
+    """F-math-sumplus: the math step produced (not present before) a #sum+ aggregate with a negated / negatively scaled weight"""
+    before = {str(b) for b in _body_lits(_before(case, failure))}
+    for lit in _body_lits(_after(case, failure)):
+        if str(lit) in before or lit.ast_type != ASTType.Literal or lit.atom.ast_type != ASTType.BodyAggregate:
+            continue
+        if int(lit.atom.function) != 2:  # SumPlus
+            continue
+        for el in lit.atom.elements:
+            if not el.terms:
+                continue
+            for n in astutil.walk(el.terms[0]):
+                if n.ast_type == ASTType.UnaryOperation and int(n.operator_type) == 0:
+                    return True
+                if n.ast_type == ASTType.SymbolicTerm and n.symbol.type.name == "Number" and n.symbol.number < 0:
+                    return True
+    return False
+
+
+def math_uses_minmax_result(case: dict, failure: dict) -> bool:
+    """F-math-minmax: a variable assigned by a #min/#max aggregate (it may be #inf/#sup or a non-integer) occurs in a
+    literal that the math step removed or rewrote, while the #min/#max aggregate itself is kept verbatim"""
+    assigned = set()
+    after = {str(b) for b in _body_lits(_after(case, failure))}
+    for lit in _body_lits(_before(case, failure)):
+        if lit.ast_type == ASTType.Literal and lit.atom.ast_type == ASTType.BodyAggregate and int(lit.atom.function) in (3, 4):
+            if str(lit) not in after:
+                return False  # the #min/#max aggregate itself was rewritten: that is a different defect
+            for g in (lit.atom.left_guard, lit.atom.right_guard):
+                if g is not None and g.term.ast_type == ASTType.Variable:
+                    assigned.add(g.term.name)
+    if not assigned:
+        return False
+    for lit in _body_lits(_before(case, failure)):
+        if str(lit) not in after and set(astutil.variables_in(lit)) & assigned:
+            return True
+    return False
+
+
+def math_noninteger_instance(case: dict, failure: dict) -> bool:
+    """F-math-terms: the failing instance gives a non-integer value (constant, string, function term) to an input predicate
+    and the math step rewrote a comparison (moving terms across a comparison is only defined for integers)"""
+    inst = _instance(failure)
+    if not inst:
+        return False
+    for fact in _prg(inst):
+        if fact.ast_type != ASTType.Rule:
+            continue
+        for atom in astutil.head_atoms(fact):
+            if atom.ast_type != ASTType.SymbolicAtom or atom.symbol.ast_type != ASTType.Function:
+                continue
+            for arg in atom.symbol.arguments:
+                is_int = arg.ast_type == ASTType.SymbolicTerm and arg.symbol.type.name == "Number"
+                is_neg = arg.ast_type == ASTType.UnaryOperation and arg.argument.ast_type == ASTType.SymbolicTerm and arg.argument.symbol.type.name == "Number"
+                if not (is_int or is_neg):
+                    before = {str(b) for b in _body_lits(_before(case, failure)) if b.ast_type == ASTType.Literal and b.atom.ast_type == ASTType.Comparison}
+                    after = {str(b) for b in _body_lits(_after(case, failure))}
+                    return bool(before - after)
+    return False
+
+
 def out_only_aux_collision(case: dict, failure: dict) -> bool:
     """F-outdecl (semantic face): OUT declares a predicate that does not occur in the source and the result defines exactly that predicate"""
     if case.get("OUT") in (None, "auto"):
@@ -340,6 +409,9 @@ TRIGGERS: dict[str, Callable[[dict, dict], bool]] = {
     "out_only_aux_collision": out_only_aux_collision,
     "math_symbolic_constant": math_symbolic_constant,
     "domain_rule_antimonotone": domain_rule_antimonotone,
+    "math_sumplus_negative_weight": math_sumplus_negative_weight,
+    "math_uses_minmax_result": math_uses_minmax_result,
+    "math_noninteger_instance": math_noninteger_instance,
     "input_also_defined_domain": input_also_defined_domain,
     "selfref_equality": selfref_equality,
     "negated_chain": negated_chain,
